@@ -86,7 +86,7 @@ var (
 	docURIPool = []string{
 		"http://a.test/r.json", "http://a.test/d/x.json", "http://a.test/d/e/y.json",
 		"http://a.test/d/z.json", "http://b.test/r.json", "http://b.test/d/x.json", "http://b.test/q/w.json",
-		"http://Mixed.Case.test/r.json", "http://Mixed.Case.test/d/x.json", // host names are case-insensitive; nothing may depend on their spelling being normalised
+		"http://Mixed.Case.test/r.json", "http://Mixed.Case.test/d/x.json", "http://Mixed.Case.test/d/e/y.json", "http://Mixed.Case.test/q.json", // host names are case-insensitive; nothing may depend on their spelling being normalised
 	}
 	relIDPool  = []string{"e1.json", "sub/e2.json", "../up/e3.json", "/abs/e4.json", "./e5.json", "sub/deep/e6.json", "e7"}
 	absIDPool  = []string{"http://a.test/emb/a1.json", "http://b.test/emb/b1.json", "urn:x:e1", "urn:x:e2", "http://c.test/c1.json"}
@@ -124,6 +124,12 @@ func GenUniverse(c *Ctx, o UniOpts) *Universe {
 	}
 	nd := 1 + c.W(maxDocs)
 	pool := docURIPool
+	if !o.Relocatable && c.W(8) == 0 {
+		pool = docURIPool[7:] // every document on the host whose name is written in mixed case
+		if nd > len(pool) {
+			nd = len(pool)
+		}
+	}
 	if o.Relocatable {
 		pool = docURIPool[:4] // one host
 		if nd > 4 {
